@@ -24,8 +24,8 @@ CHECKS.update({
 CHECKS.update({
  "C07": ("vseq", "fault_enumeration", "exhaustive enumeration of every cut offset of saved files in four containers, in-memory and file API",
          "Every strict prefix of every saved file (about 200 (type, value) cases x 4 containers, file API for 7 types, multi-block compressed/encrypted payloads with a stated subset of offsets) must load as an error or as the original value; never another value, never a panic.", "§5 C07"),
- "C08": ("vseq", "fault_enumeration", "deviation-bounded enumeration of environment answers of instrumented Read/Write streams (every call index x {short, Interrupted, 3 hard errors, Ok(0)}; 1 deviation quick, 2 thorough) plus chunk schedules",
-         "Benign deviations and chunkings must give identical bytes / values; hard faults must surface as Err with the accepted bytes a prefix of the fault-free output; no panic (including Drop), no hang (call budget).", "§5 C08"),
+ "C08": ("vseq", "fault_enumeration", "deviation-bounded enumeration of environment answers of instrumented Read/Write streams (every call index x {short, Interrupted, 3 hard errors persistent and transient, Ok(0)}; files of the newest and of every older data version; 1 deviation quick, 2 thorough) plus chunk schedules",
+         "Benign deviations and chunkings must give identical bytes / values; hard faults must surface as Err with the accepted bytes a prefix of the fault-free output; no panic (including Drop), no hang (call budget and watchdog).", "§5 C08"),
  "C13": ("vschema", "model_checking", "exhaustive enumeration of schema trees (depth 2 quick / 3 thorough) and of all single wire-altering mutations, against an independent schema codec for formats 0/1/2",
          "Every enumerated schema tree must persist exactly at formats 1 and 2 (real bytes == model bytes), format-0 bytes must decode to the tree minus layout, diff_schema must be reflexive and must report every single wire-altering mutation in both argument orders.", "§5 C13"),
  "C14": ("vseq", "fault_enumeration", "exhaustive enumeration of single-byte replacements (all 255 values on small files), truncations and the edit-distance-1 password neighbourhood of encrypted files",
@@ -40,7 +40,7 @@ CHECKS.update({
          "Every method of the generated family is driven directly and through an AbiConnection for every enumerated state; observed arguments, callbacks, returned values, drop traces (exactly once), panic propagation and connection reuse must agree.", "§5 C09"),
 })
 CHECKS.update({
- "C06": ("vseq", "fault_enumeration", "complete enumeration of stated mutation sets of valid encodings (every byte x replacement values, every length field x boundary lengths, every tag x all values, every truncation) and of all byte strings of length <= 2, in crash-isolated child processes",
+ "C06": ("vseq", "fault_enumeration", "complete enumeration of stated mutation sets of valid encodings (every byte x replacement values, every length field x boundary lengths, every tag x all values, every truncation, every structural single mutation of the schema tree) and of all byte strings of length <= 2, in crash-isolated child processes",
          "Every mutated input is loaded through bare_deserialize / load_noschema / load and through the bulk containers; outcome must be Ok or Err, no panic except allocation failures on absurd declared lengths, loaded values are inspected through raw memory for invalid bool/char/enum tags and for collections larger than the input could encode.", "§5 C06"),
  "C10": ("vabi10", "model_checking", "breadth-first history tree of ABI-usable edits; all ordered (caller version, implementation version) pairs x methods x values on the real AbiConnection against a down/up reference model",
          "For every ordered pair of definitions on a history path: negotiated version == min, the implementation observes up_j(down_min(x)), the caller receives up_i(down_min(r)), missing methods panic at call time, breaking signatures are refused at connect.", "§5 C10"),
